@@ -87,14 +87,23 @@ class Cong:
                     self.sizes[nm] = atom(("mem", base + fm.size, 8))
         self.facts = facts.copy() if facts is not None else Facts()
         self.facts.cong_atom = self.atom_cong
-        # induction variables stay within [first, last] (affine loops with solved exit)
-        for li in self.sm.loops.values():
+
+    def loop_facts(self, loops, base=None):
+        """facts + 'induction variables stay within [first, last]' for the loops an event sits in (these bounds
+        hold only inside the loop body: outside they would wrongly assert that the loop executes)"""
+        f = (base if base is not None else self.facts).copy()
+        f.cong_atom = self.atom_cong
+        for lid in loops:
+            li = self.sm.loops.get(lid)
+            if li is None:
+                continue
             for a, (init, st) in li.ivs.items():
                 last = li.last.get(a)
                 if st and last is not None:
                     lo, hi = (init, last) if st > 0 else (last, init)
-                    self.facts.add(c_cmp("sle", lo, atom(a)))
-                    self.facts.add(c_cmp("sle", atom(a), hi))
+                    f.add(c_cmp("sle", lo, atom(a)))
+                    f.add(c_cmp("sle", atom(a), hi))
+        return f
 
     def iv_extremes(self, t):
         """(lowest, highest) value of t over the iterations of the loops whose induction variables occur
@@ -310,7 +319,7 @@ def rule_C03(ck, rule="AL"):
             good = True
             marker = _is_marker_store(cg, tu, fn, e)
             need = min(sea, m_end) if marker else sea
-            for f in case_split([val], extend(cg.facts, e.guard), max_cases=16):
+            for f in case_split([val], extend(cg.loop_facts(e.loops), e.guard), max_cases=16):
                 v2 = simplify(val, f)
                 if not _with(cg, f).aligned(v2, need):
                     good = False
@@ -344,7 +353,7 @@ def rule_C03(ck, rule="AL"):
                 f_ev = extend(f_ev, c_cmp("ult", tu.arg(fn, "q"), atom(("mem", tu.arg(fn, "v") + fm.size, 8))))
             if fn in ("w_erase1_result", "w_erase2_result") and fm.size is not None:
                 f_ev = extend(f_ev, c_cmp("ult", tu.arg(fn, "i"), atom(("mem", tu.arg(fn, "v") + fm.size, 8))))
-            for f in case_split([p], extend(f_ev, e.guard), max_cases=16):
+            for f in case_split([p], extend(cg.loop_facts(e.loops, f_ev), e.guard), max_cases=16):
                 p2 = simplify(p, f)
                 v = _with(cg, f)
                 if not v.aligned(p2, A):
@@ -422,7 +431,7 @@ def _is_marker_store(cg, tu, fn, e):
                 post_size = cg.sm.final.get((tu.arg(fn, "v") + cg.fm.size, 8)) if cg.fm.size is not None else None
                 if post_size is None:
                     return False
-            f = extend(cg.facts, e.guard)
+            f = extend(cg.loop_facts(e.loops), e.guard)
             d = simplify(off - post_size.scale(8), f)
             return (d.is_const() and d.c >= 0) or f.nonneg(d)
     return False
